@@ -2,6 +2,7 @@ package props
 
 import (
 	"fmt"
+	"strings"
 	"go/ast"
 	"go/constant"
 	"go/token"
@@ -190,6 +191,7 @@ func C17pool(p *load.Program, run *report.Run) {
 	}
 	run.Count("put-sites", puts)
 	run.Floor("put-sites", 5)
+	run.Floor("handle-reference-fields", 3)
 	run.OK("put-sites", "circuit/sync.Pool.Put", "", fmt.Sprintf("%d sites", puts))
 
 	// Release
@@ -210,7 +212,7 @@ func C17pool(p *load.Program, run *report.Run) {
 			for _, b := range release.Blocks {
 				if iff, ok := b.Instrs[len(b.Instrs)-1].(*ssa.If); ok {
 					if bo, ok := iff.Cond.(*ssa.BinOp); ok && bo.Op == token.EQL {
-						if cst, ok := bo.Y.(*ssa.Const); ok && cst.IsNil() && fieldOfLoad(bo.X) == "pool" && b.Succs[1].Dominates(put.Block()) {
+						if cst, ok := bo.Y.(*ssa.Const); ok && cst.IsNil() && fieldOfLoad(bo.X) != "" && strings.HasSuffix(bo.X.Type().String(), "sync.Pool") && b.Succs[1].Dominates(put.Block()) {
 							guarded = true
 						}
 					}
@@ -221,7 +223,21 @@ func C17pool(p *load.Program, run *report.Run) {
 			} else {
 				run.Violate("release-idempotent", "circuit.Garbled.Release/guard", p.Rel(put.Pos()), "Put is not guarded by the nil-pool test: a second Release puts the scratch twice", nil)
 			}
-			for _, fld := range []string{"pool", "scratch", "Wires", "Gates"} {
+			// every reference-typed field of the handle (pointer, slice, map) refers to pooled memory or to
+			// the pool itself and must be cleared; the fields are taken from the struct, not from a list of names
+			var refFields []string
+			if gt, err := p.Type("circuit", "Garbled"); err == nil {
+				if st, ok := gt.Underlying().(*types.Struct); ok {
+					for i := 0; i < st.NumFields(); i++ {
+						switch st.Field(i).Type().Underlying().(type) {
+						case *types.Pointer, *types.Slice, *types.Map:
+							refFields = append(refFields, st.Field(i).Name())
+						}
+					}
+				}
+			}
+			run.Count("handle-reference-fields", len(refFields))
+			for _, fld := range refFields {
 				fld := fld
 				ok := mustPass(put.Block(), instrIndex(put)+1, func(x ssa.Instruction) bool {
 					st, ok := x.(*ssa.Store)
